@@ -65,6 +65,32 @@ def run(ctx):
         errs = [c.block for c in fc.calls("re:FromResidual<.*>>::from_residual$")]
         after = fc.reach([st.block])
         r2.check(not [e for e in errs if e in after], "no-error-after-store", "no error exit after the swap", "an error exit exists after POOLS.store")
+        # the published map holds nothing but what this call made of the new configuration: it starts empty and
+        # only gains entries keyed by PoolIdentifier::new(..) inside the configuration loops (round 5: a map
+        # seeded with the live pools kept a removed user's pool in service)
+        vis = set()
+        os_ = origins(fc, st.args[1], visited=vis, taint=True)
+        src = sorted({strip_generics(o.call.name) for o in os_ if o.kind == "call"})
+        maps = {l for l in vis if isinstance(l, int) and re.match(r"^std::collections::(hash::map::)?HashMap<pgcat::pool::PoolIdentifier", fc.locals[l]["ty"])}
+        alien = [n for n in src if not re.search(r"HashMap::new$|::clone$|Arc::new$|HashMap::with_capacity$", n)]
+        r2.check(bool(maps) and not alien, "published-map-starts-empty", "the map stored into POOLS is created empty in from_config", "the map stored into POOLS is derived from %s: entries of the previous configuration (a removed pool or user) survive the reload and keep serving clients" % (alien or "nothing recognisable"))
+        muts = []
+        for b_, i, s_ in fc.assigns():
+            rv = s_["rv"]
+            if rv["k"] == "ref" and rv.get("mut") and rv["pl"]["l"] in maps and not rv["pl"]["p"]:
+                tl = s_["lhs"]["l"]
+                for c in fc.calls():
+                    if c.args and op_local(c.args[0]) == tl and c not in muts:
+                        muts.append(c)
+        other = [c for c in muts if not re.search(r"HashMap::insert$", strip_generics(c.name))]
+        r2.check(bool(muts) and not other, "published-map-only-inserted", "the new map is only ever inserted into (%d sites)" % len(muts), "the new map is also modified by %s" % [c.where() for c in other] if muts else "no insert into the new pool map found")
+        cfg_loops = [hd for hd in heads if any(c.block in natural_loop(fc, hd) for c in muts)]
+        for c in muts:
+            if c in other:
+                continue
+            ks = {strip_generics(o.call.name) for o in origins(fc, c.args[1], taint=True) if o.kind == "call"}
+            inl = any(c.block in natural_loop(fc, hd) for hd in heads)
+            r2.check("pgcat::pool::PoolIdentifier::new" in ks and inl, "insert-keyed-by-config-entry", "the entry is keyed by PoolIdentifier::new(pool, user) of the configuration entry being processed", "an entry of the new pool map is not keyed by the (pool, user) being processed", c.where())
     callers = F.callers_of("pgcat::pool::ConnectionPool::from_config")
     r2.check(set(callers) == {"bin:pgcat::main::{closure#1}", RELOAD}, "from_config-callers", "from_config is called from main (startup) and reload_config only", "from_config callers: %s" % callers)
     rl = ctx.body(RELOAD, r2)
